@@ -574,27 +574,29 @@ def from_json(c):
 
 
 def shrink(case):
+    """a few smaller cases per round (each candidate costs an implementation run and a Coq evaluation)"""
+    import itertools
+    return itertools.islice(_shrink_all(case), 14)
+
+
+def _shrink_all(case):
     rows = case["rows"]
-    if case["ops"]:
-        for i in range(len(case["ops"]) - 1, -1, -1):
-            c = dict(case)
-            c["ops"] = case["ops"][:i] + case["ops"][i + 1:]
-            yield c
+    for i in range(len(case["ops"]) - 1, -1, -1):
+        c = dict(case)
+        c["ops"] = case["ops"][:i] + case["ops"][i + 1:]
+        yield c
     if len(rows) > 1:
         for i in range(len(rows)):
             c = dict(case)
             c["rows"] = rows[:i] + rows[i + 1:]
             yield c
     for q in ("q0", "q1"):
-        for key in ("entries", "items", "paps", "dst", "refs", "iter"):
+        for key in ("entries", "items", "paps", "dst"):
             if len(case[q][key]) > 1:
-                for i in range(len(case[q][key])):
-                    if key == "refs" and i == 0:
-                        continue
-                    c = dict(case)
-                    c[q] = dict(case[q])
-                    c[q][key] = case[q][key][:i] + case[q][key][i + 1:]
-                    yield c
+                c = dict(case)
+                c[q] = dict(case[q])
+                c[q][key] = case[q][key][:1]
+                yield c
 
 
 def classify(case, res):
